@@ -6,6 +6,7 @@ export GOFLAGS=-mod=mod GOPROXY=off GOSUMDB=off GOTOOLCHAIN=local
 for t in tlc java go rsync python3 apalache-mc; do command -v $t >/dev/null || { echo "missing tool: $t"; exit 1; }; done
 S=$(mktemp -d /tmp/verif_setup_XXXXXX); trap 'rm -rf "$S"' EXIT
 rsync -a --exclude .git /repo/ "$S/golib/"; rsync -a /verif/harness/ "$S/harness/"
+rsync -a /verif/harness/shim/ "$S/golib/verifshim/"
 for d in /verif/harness/overlay/*/; do p=$(basename "$d"); [ -d "$S/golib/$p" ] && cp "$d"*.go "$S/golib/$p/"; done
 (cd "$S/harness" && go build -o "$S/bin/" ./cmd/... ) || echo "warning: harness does not build against the current tree (checks fall back to black-box builds)"
 mkdir -p /verif/evidence
